@@ -127,6 +127,8 @@ class sym_int(metaclass=_IntMeta):
         if base is not None:
             if is_sym(x):
                 raise Undecided("int(symbolic, base)")
+            if base == 16 and isinstance(x, _b.str) and x.startswith("\x01HD") and x.endswith("\x02") and S.active():
+                return ctx().ghost["hexdigits"][_b.int(x[3:-1])]      # digits token produced by sym_hex
             return _b.int(x, base)
         if isinstance(x, SymInt):
             return x
@@ -324,8 +326,18 @@ def sym_reversed(x):
 
 
 def sym_hex(x):
-    if is_sym(x):
-        raise Undecided("hex of symbolic int")
+    """hex(n) for a symbolic int: '0x' / '-0x' followed by an abstract token standing for the hexadecimal digits of
+    |n| (assumed inverse pair hex / int(., 16), T4; see sym_int)"""
+    if isinstance(x, SymBool):
+        x = x._int()
+    if isinstance(x, SymInt):
+        c = ctx()
+        reg = c.ghost.setdefault("hexdigits", [])
+        if bool(x < 0):
+            reg.append(-x)
+            return "-0x\x01HD%d\x02" % (len(reg) - 1)
+        reg.append(x)
+        return "0x\x01HD%d\x02" % (len(reg) - 1)
     return _b.hex(x)
 
 
